@@ -33,6 +33,7 @@ import ZygoVerif.Proofs.Balanced
 import ZygoVerif.Proofs.GenBalanced
 import ZygoVerif.Proofs.GenBalancedAll
 import ZygoVerif.Proofs.VMRest
+import ZygoVerif.Proofs.VMRefine
 import ZygoVerif.Generated.InstrSet
 namespace ZygoVerif.C04
 open ZygoVerif.Bal ZygoVerif.VM ZygoVerif.Core
@@ -382,6 +383,23 @@ theorem generated_function_balanced (isFn : Nat → Bool) (es : List Expr) (gs g
     exact tail_call_reenters_at_entry_depth _ ann hv D S A ⟨0, List.replicate f.params.length .val ++ D, S, A⟩ c
       rfl rfl rfl rfl hreach hpc
 
+/-- The full statement `GenBalanced` is FALSE for the model as it stands — the side condition
+"bodies are not empty" of `gen_balanced` is needed: the model generator accepts `(fn [])` (the
+real builders refuse an empty function body with a compile error) and compiles it to
+`addFuncScope; removeScope; ret`, which returns with NO value (`legacy_empty_begin_counterexample`
+is this very listing). -/
+theorem genBalanced_needs_nonempty_bodies : ¬ GenBalanced := by
+  intro hG
+  obtain ⟨_, hfns⟩ := hG (fun _ => false) [.fn [] none []] { fns := [] }
+    ((compileBegin (fun _ => false) {} [.fn [] none []] { fns := [] }).toOption.get!.2)
+    [.createClosure 0] false rfl
+  obtain ⟨ann, hv⟩ := hfns 0 (Nat.zero_le _) _ rfl (by decide)
+  obtain ⟨c, hreach, hret, hdata⟩ := legacy_empty_begin_counterexample [] 0 0
+  have := checker_sound _ ann hv [] 0 0 ⟨0, [], 0, 0⟩ c rfl rfl rfl rfl hreach
+  have h1 := (this.2.1 hret).1
+  rw [hdata] at h1
+  cases h1
+
 /-! ### Non-vacuity -/
 
 /-- `(for outer: [(def i 0) (< i 3) (set i (+ i 1))]
@@ -468,13 +486,41 @@ theorem eval_empty_nil (s : St) (fuel : Nat) (h : AtRest s) :
 /-- the fresh interpreter is at rest (non-vacuity of `AtRest`) -/
 example : AtRest initSt := ⟨rfl, rfl, rfl, rfl, rfl, by decide⟩
 
+/-- **exec_refines**, full statement (`Refine.ExecRefines`): every successful `VM.exec` step taken in
+the code of the current function, that stays in the activation, is a step `Bal.CStep` of the
+stack-effect machine of that function as the checker sees it (`Refine.fnB`), between the
+abstractions (`Refine.absC`: pc, kinds of the data-stack cells, scope and address depth) of the
+two states. This ties the effect table `Bal.eff` — hand-written from zygo/vm.go — to the VM model
+that C02 validates against the real interpreter. -/
+def ExecRefines : Prop := Refine.ExecRefines
+
+/-- **exec_refines_partial** — proved instruction by instruction (Proofs/VMRefine.lean), for
+every state and every fuel: `label`, `loopStart`, `push` (of an ordinary value), `pop` (incl. the
+ignored underflow), `dup`, `popStackPutEnv`, `update`, `jump`, `goto`, `branch` (with the VM's bounds
+check = the checker's `target`), `addScope`, `addFuncScope`, `removeScope`, `createClosure`,
+`pushLazy`, `pushMark`, `popUntilMark`, `clearMark` (`popToMark` pops exactly the cells above the
+first mark of the loop), `assign`; and with the side condition each needs: `envToStack` (no
+stack-mark is bound to a name), `tailGuard` (skip target inside the function), `prepareCall`
+(compiled code; packs the variadic tail of the running function), `brk`/`cont` (`FindLoop` =
+`loopPos` on the checker's listing; new pc not negative). NOT proved: `callArr`/`callExpr` (the
+calling contract "arguments popped, one result pushed, scopes as before" needs the induction over
+nested runs with every function of the table verified) and `ret` (ends the activation). -/
+theorem exec_refines_partial (i : Instr)
+    (h : match i with
+      | .push v => Refine.plain v = true
+      | .envToStack _ | .tailGuard _ _ | .prepareCall _ _ | .brk _ _ | .cont _ _
+      | .callArr _ | .callExpr _ _ | .ret => False
+      | _ => True) : Refine.StepRefines i :=
+  Refine.exec_refines_partial i h
+
 /-- **run_at_rest_partial**: `RunAtRest` for the empty text (`eval_empty_nil`). What the general
-statement needs on top of the theorems above: (1) a refinement lemma "every `VM.exec` step is
-a `Bal.CStep` of the corresponding `BInstr`" (the effect table `Bal.eff` read off the model VM
-instead of off vm.go), (2) the calling contract for nested runs by induction on the call depth
-(`operand_returns_one_value` is its base case for helper functions), (3) `GenBalanced` for the
-forms not yet covered. Until then the statement is held, on the real interpreter, by the depth
-oracle of channel `rest` on every run. -/
+statement needs on top of the theorems above: (1) the refinement "every `VM.exec` step is a
+`Bal.CStep`": proved per instruction (`exec_refines_partial`) except for the call instructions;
+(2) the calling contract for nested runs by induction on the call depth
+(`operand_returns_one_value` and `generated_function_balanced` are the per-function halves: a
+helper / a generated function run on top of ANY caller stack returns with exactly one value and
+the caller's depths); (3) `GenBalanced` for all forms: `gen_balanced`. Until (2) is done the
+statement is held, on the real interpreter, by the depth oracle of channel `rest` on every run. -/
 theorem run_at_rest_partial (s : St) (fuel : Nat) (h : AtRest s) :
     ∀ s' v tr d alive, runText (fuel + 2) [] s = (Outcome.done "ok" v tr d, s', alive) → AtRest s' := by
   intro s' v tr d alive hr
